@@ -540,12 +540,58 @@ class Points(ModelObj):
 
     def __init__(self, ctx):
         self.n = ctx.fresh("n_points", Int)
+        self.ndims = ctx.fresh("n_dims", Int)
         self.T = ctx.fresh_fun("pt_time", Int, Int)
         self.pos = ctx.fresh_fun("pt_pos", Int, Pos)
         ctx.assume(self.n >= 0)
 
     def m_iter(self, I):
         return SymList(self.n, lambda i: PointRow(self, i))
+
+    def attr_shape(self, I):
+        return (Sym(self.n), Sym(self.ndims))
+
+    def m_binop(self, I, op, other, inplace=False):
+        """points_list * np.array(scale): every coordinate multiplied by its factor - time by scale[0], the position by scale[1:]"""
+        import ast
+        if not (isinstance(op, ast.Mult) and isinstance(other, ScaleVec)):
+            raise Unsupported("point arithmetic")
+        out = Points.__new__(Points)
+        out.n, out.ndims = self.n, self.ndims
+        T0, p0 = self.T, self.pos
+        out.T = lambda i: scaled_time(T0(i), other.e)
+        out.pos = lambda i: scaled_pos(p0(i), other.e)
+        out.unscaled = self
+        return out
+
+
+scaled_time = z3.Function("scaled_time", Int, Val, Int)
+scaled_pos = z3.Function("scaled_pos", Pos, Val, Pos)
+
+
+class ScaleList(ModelObj):
+    """scale: a list of one factor per dimension"""
+
+    type_names = ("list",)
+
+    def __init__(self, e, n):
+        self.e, self.n = e, n
+
+    def m_len(self, I):
+        return Sym(self.n)
+
+
+class ScaleVec(ModelObj):
+    type_names = ("ndarray",)
+
+    def __init__(self, e):
+        self.e = e
+
+
+def np_array_ext(I, args, kw):
+    if isinstance(args[0], ScaleList):
+        return ScaleVec(args[0].e)
+    raise Unsupported("np.array argument")
 
 
 class NewGraph(ModelObj):
@@ -626,8 +672,17 @@ class NodesFromPointsList(Contract):
             made.append(g)
             return g
         I.ext["networkx.DiGraph"] = digraph
-        ctx.loopspecs[(NFPL, 0)] = PointsLoop(P)
-        out = call_real(I, NFPL, [P], {"scale": None})
+        Pq = P
+        if cfg.get("scale"):
+            sc = ScaleList(ctx.fresh("scale", Val), P.ndims)
+            I.ext["numpy.array"] = np_array_ext
+            Pq = P * sc if False else P.m_binop(I, __import__("ast").Mult(), ScaleVec(sc.e))  # what the code computes: the points the nodes are built from
+            ctx.loopspecs[(NFPL, 0)] = PointsLoop(Pq)
+            out = call_real(I, NFPL, [P], {"scale": sc})
+        else:
+            ctx.loopspecs[(NFPL, 0)] = PointsLoop(P)
+            out = call_real(I, NFPL, [P], {"scale": None})
+        P = Pq
         q = "nodes_from_points_list"
         if out[0] != "return":
             ctx.oblige(f"C18/{q}/no-exception", False, props=self.props, note=str(out[1]))
@@ -788,8 +843,11 @@ def seg_clauses(V, g, d, T, upto=None):
     """nodes = labels of frames < T (plus, inside frame T, the first `upto` regions)"""
     done = lambda n: OR(AND(g.fr(n) >= 0, g.fr(n) < T), AND(upto is not None, g.fr(n) == T, V.labpos(T, n) < (upto if upto is not None else 0))) if upto is not None else AND(g.fr(n) >= 0, g.fr(n) < T)
     sp = g.ctx.ghost.get("spacing_used")
+    in_done = (lambda t, j: AND(t >= 0, t < T)) if upto is None else (lambda t, j: OR(AND(t >= 0, t < T), AND(t == T, j < upto)))
     out = [
         ("nodes-are-the-labels-of-the-processed-frames", forall([a_], g.N(a_) == AND(V.is_label(g.fr(a_), a_), done(a_)))),
+        ("every-label-of-a-processed-frame-is-a-node-with-that-frame-as-its-time",
+         forall([t_, j_], IMP(AND(in_done(t_, j_), j_ >= 0, j_ < V.nreg(t_)), AND(g.N(V.lab(t_, j_)), g.fr(V.lab(t_, j_)) == t_)))),
         ("no-edges-added", z3.BoolVal(g.edges_added == 0)),
     ]
     if sp is not None:
@@ -1264,5 +1322,5 @@ class AddIou(Contract):
 
 def units():
     from pyvc.verify import Unit
-    return [Unit(AddCandEdges(), {}), Unit(ComputeNodeFrameDict(), {}), Unit(NodesFromPointsList(), {}),
+    return [Unit(AddCandEdges(), {}), Unit(ComputeNodeFrameDict(), {}), Unit(NodesFromPointsList(), {}), Unit(NodesFromPointsList(), {"scale": True}),
             Unit(NodesFromSegmentation(), {}), Unit(NodesFromSegmentation(), {"scale": True}), Unit(GetIouDict(), {}), Unit(AddIou(), {})]
